@@ -24,11 +24,11 @@ let node = function
 let show_tree t = String.concat ";" (List.map node t)
 let show_parse s =
   match parse s with
-  | PTree t -> "T " ^ show_tree t ^ " ## " ^ hex (fmt t)
-  | PErr (l, Some c) -> Printf.sprintf "E %d %s ## -" (int_of_nat l) (hex c)
-  | PErr (_, None) -> "PANIC ## -"
-  | PErrRaw m -> "R " ^ hex m ^ " ## -"
-  | PPanic -> "PANIC ## -" | PFuel -> "FUEL ## -"
+  | PTree t -> "T " ^ show_tree t ^ " ## " ^ hex (fmt t) ^ " ## " ^ (if cst_wf_b (layout t) then "1" else "0")
+  | PErr (l, Some c) -> Printf.sprintf "E %d %s ## - ## -" (int_of_nat l) (hex c)
+  | PErr (_, None) -> "PANIC ## - ## -"
+  | PErrRaw m -> "R " ^ hex m ^ " ## - ## -"
+  | PPanic -> "PANIC ## - ## -" | PFuel -> "FUEL ## - ## -"
 let run_syntax ic =
   iter_lines ic (fun line ->
     let s = bytes_of_hex line in
